@@ -12,10 +12,10 @@ out.append("|---|---|---|---|---|")
 for f in fixed:
     out.append(f"| {f['id']} | {f['property']} | `{f.get('commit','')}` | {f['what']} | `{f.get('replay','—')}` |")
 out.append("\n### Open (known findings)\n")
-out.append("| id | property | what fails | avoidance switches | pinned replay |")
+out.append("| id | property | what fails | avoidance switches (scope) | pinned replay |")
 out.append("|---|---|---|---|---|")
 for f in opn:
-    out.append(f"| {f['id']} | {f['property']} | {f['what']} | {', '.join('`'+a+'`' for a in f.get('avoid',[]))} | `{f.get('replay','—')}` |")
+    out.append(f"| {f['id']} | {f['property']} | {f['what']} | {', '.join('`'+a+'`' for a in f.get('avoid',[]))}{' (only in '+' '.join(f['scope'])+')' if f.get('scope') else ''} | `{f.get('replay','—')}` |")
 txt='\n'.join(out)+'\n'
 p='/verif/DESIGN.md'
 s=open(p).read()
